@@ -348,51 +348,52 @@ def r_C19a_C01(root):
     # parser options go on to arpeggio's Parser.__init__ under their own names
     mt = load(root, M); gmp = find(mt, "get_model_parser"); pi = find(mt, "get_model_parser.TextXModelParser.__init__"); inst += 1
     pcls = getattr(pi, "_parent", None)
-    top_s = {".kind": "first-rule"}; com_s = {".kind": "comment-rule"}; opts = {o: ("opt", o) for o in need}
-    ctor = []; sup = []
-    gps = [a_.arg for a_ in gmp.args.args]
-    if len(gps) < 2 or gmp.args.kwarg is None: raise AnalysisError("get_model_parser: expected (top_rule, comments_model, **kwargs), got %s" % ast.unparse(gmp.args))
-    genv = {"__functions__": {k_: v_ for k_, v_ in helper_functions(root, M, "get_model_parser").items() if k_ != "get_model_parser"}, "__module__": mt, gps[0]: top_s, gps[1]: com_s, gmp.args.kwarg.arg: dict(opts),
-            pcls.name: _pe.PyFn(lambda *a_, **k_: (ctor.append((a_, k_)), {".kind": "parser"})[1])}
-    try: _pe.run_block(gmp.body, genv)
-    except _pe.Raised as r_: ctor = None; gerr = "get_model_parser raises " + r_.cls
-    except _pe.Unsupported as u_: raise AnalysisError("get_model_parser: outside the evaluated subset: %s" % u_)
-    okp = False; why = ""
-    if not ctor or len(ctor) != 1: why = (gerr if ctor is None else "the parser class is instantiated %d times" % len(ctor))
-    else:
-        a_, k_ = ctor[0]; ips = [x.arg for x in pi.args.args]
-        selfo = {".kind": "parser"}
-        ienv = dict(genv); ienv.pop(pcls.name, None); ienv[ips[0]] = selfo
-        named = ips[1:]; rest = list(a_[len(named):]); kw2 = dict(k_)
-        for n_, v_ in zip(named, a_): ienv[n_] = v_
-        for n_ in named[len(a_):]:
-            if n_ in kw2: ienv[n_] = kw2.pop(n_)
-        dflt = dict(zip(ips[len(ips) - len(pi.args.defaults):], pi.args.defaults))
-        for n_, d_ in dflt.items():
-            if n_ not in ienv: ienv[n_] = _pe.evaluate(d_, genv)
-        if pi.args.vararg: ienv[pi.args.vararg.arg] = tuple(rest)
-        elif rest: why = "the constructor gets more positional arguments than it takes"
-        if pi.args.kwarg: ienv[pi.args.kwarg.arg] = kw2
-        elif kw2: why = "the constructor gets keyword arguments it does not take: %s" % sorted(kw2)
-        ienv["super"] = _pe.PyFn(lambda *x_: {".__init__": _pe.PyFn(lambda *sa_, **sk_: sup.append((sa_, sk_)))})
-        ienv["Sequence"] = _pe.PyFn(lambda *sa_, **sk_: dict({".kind": "Sequence", ".args": sa_}, **{"." + kk_: vv_ for kk_, vv_ in sk_.items()}))
-        ienv["EOF"] = _pe.PyFn(lambda *sa_, **sk_: {".kind": "EOF"})
-        ienv["__functions__"] = {k2_: v2_ for k2_, v2_ in helper_functions(root, M, "get_model_parser.TextXModelParser.__init__").items() if k2_ != "__init__"}
-        if not why:
-            try: _pe.run_block(pi.body, ienv)
-            except _pe.Raised as r_: why = "TextXModelParser.__init__ raises " + r_.cls
-            except _pe.Unsupported as u_: raise AnalysisError("TextXModelParser.__init__: outside the evaluated subset: %s" % u_)
-        if not why:
-            pmv = selfo.get(".parser_model"); nd = pmv.get(".nodes") if isinstance(pmv, dict) else None
-            if not (isinstance(pmv, dict) and pmv.get(".kind") == "Sequence" and isinstance(nd, list) and len(nd) == 2 and nd[0] is top_s and isinstance(nd[1], dict) and nd[1].get(".kind") == "EOF"):
-                why = "the compiled grammar of the parser is %s" % ("a sequence of %s" % [x_.get(".kind") if isinstance(x_, dict) else x_ for x_ in nd] if isinstance(nd, list) else repr(pmv)[:60])
-            elif pmv.get(".root") is not True: why = "the start sequence is not marked as the root rule"
-            elif selfo.get(".comments_model") is not com_s: why = "the parser's comments_model is %r, not the Comment rule handed over" % (selfo.get(".comments_model"),)
-            elif len(sup) != 1 or any(sup[0][1].get(o) != ("opt", o) for o in need) or sup[0][0]: why = "arpeggio's Parser.__init__ %s" % ("is not called exactly once" if len(sup) != 1 else "gets %s; expected every parser option under its own name" % (sorted(sup[0][1]) or "no options"))
-            else: okp = True
-    for pr in ("C01", "C22"): ob(pr, "C01.d", M, "TextXModelParser.__init__", "the parser's grammar is [first rule, EOF] (root), the Comment rule is kept, the options reach arpeggio's Parser", okp)
-    if not okp:
-        for pr in ("C01", "C22"): out.append(Finding(pr, "C01.d", M, "TextXModelParser.__init__", "self.parser_model / comments_model / Parser.__init__", "%s; documented: the model parser matches the first rule of the grammar followed by the end of input, skips what the Comment rule matches, and runs with the meta-model's parser options" % why))
+    for OPTS_, optwhat in (({o: ("opt", o) for o in need}, "distinct markers"), (dict({o: False for o in need}, ws="", skipws=True), "an empty whitespace set ws='' (nothing is skipped)")):
+        top_s = {".kind": "first-rule"}; com_s = {".kind": "comment-rule"}; opts = dict(OPTS_)
+        ctor = []; sup = []
+        gps = [a_.arg for a_ in gmp.args.args]
+        if len(gps) < 2 or gmp.args.kwarg is None: raise AnalysisError("get_model_parser: expected (top_rule, comments_model, **kwargs), got %s" % ast.unparse(gmp.args))
+        genv = {"__functions__": {k_: v_ for k_, v_ in helper_functions(root, M, "get_model_parser").items() if k_ != "get_model_parser"}, "__module__": mt, gps[0]: top_s, gps[1]: com_s, gmp.args.kwarg.arg: dict(opts),
+                pcls.name: _pe.PyFn(lambda *a_, **k_: (ctor.append((a_, k_)), {".kind": "parser"})[1])}
+        try: _pe.run_block(gmp.body, genv)
+        except _pe.Raised as r_: ctor = None; gerr = "get_model_parser raises " + r_.cls
+        except _pe.Unsupported as u_: raise AnalysisError("get_model_parser: outside the evaluated subset: %s" % u_)
+        okp = False; why = ""
+        if not ctor or len(ctor) != 1: why = (gerr if ctor is None else "the parser class is instantiated %d times" % len(ctor))
+        else:
+            a_, k_ = ctor[0]; ips = [x.arg for x in pi.args.args]
+            selfo = {".kind": "parser"}
+            ienv = dict(genv); ienv.pop(pcls.name, None); ienv[ips[0]] = selfo
+            named = ips[1:]; rest = list(a_[len(named):]); kw2 = dict(k_)
+            for n_, v_ in zip(named, a_): ienv[n_] = v_
+            for n_ in named[len(a_):]:
+                if n_ in kw2: ienv[n_] = kw2.pop(n_)
+            dflt = dict(zip(ips[len(ips) - len(pi.args.defaults):], pi.args.defaults))
+            for n_, d_ in dflt.items():
+                if n_ not in ienv: ienv[n_] = _pe.evaluate(d_, genv)
+            if pi.args.vararg: ienv[pi.args.vararg.arg] = tuple(rest)
+            elif rest: why = "the constructor gets more positional arguments than it takes"
+            if pi.args.kwarg: ienv[pi.args.kwarg.arg] = kw2
+            elif kw2: why = "the constructor gets keyword arguments it does not take: %s" % sorted(kw2)
+            ienv["super"] = _pe.PyFn(lambda *x_: {".__init__": _pe.PyFn(lambda *sa_, **sk_: sup.append((sa_, sk_)))})
+            ienv["Sequence"] = _pe.PyFn(lambda *sa_, **sk_: dict({".kind": "Sequence", ".args": sa_}, **{"." + kk_: vv_ for kk_, vv_ in sk_.items()}))
+            ienv["EOF"] = _pe.PyFn(lambda *sa_, **sk_: {".kind": "EOF"})
+            ienv["__functions__"] = {k2_: v2_ for k2_, v2_ in helper_functions(root, M, "get_model_parser.TextXModelParser.__init__").items() if k2_ != "__init__"}
+            if not why:
+                try: _pe.run_block(pi.body, ienv)
+                except _pe.Raised as r_: why = "TextXModelParser.__init__ raises " + r_.cls
+                except _pe.Unsupported as u_: raise AnalysisError("TextXModelParser.__init__: outside the evaluated subset: %s" % u_)
+            if not why:
+                pmv = selfo.get(".parser_model"); nd = pmv.get(".nodes") if isinstance(pmv, dict) else None
+                if not (isinstance(pmv, dict) and pmv.get(".kind") == "Sequence" and isinstance(nd, list) and len(nd) == 2 and nd[0] is top_s and isinstance(nd[1], dict) and nd[1].get(".kind") == "EOF"):
+                    why = "the compiled grammar of the parser is %s" % ("a sequence of %s" % [x_.get(".kind") if isinstance(x_, dict) else x_ for x_ in nd] if isinstance(nd, list) else repr(pmv)[:60])
+                elif pmv.get(".root") is not True: why = "the start sequence is not marked as the root rule"
+                elif selfo.get(".comments_model") is not com_s: why = "the parser's comments_model is %r, not the Comment rule handed over" % (selfo.get(".comments_model"),)
+                elif len(sup) != 1 or any(o not in sup[0][1] or sup[0][1][o] != OPTS_[o] or type(sup[0][1][o]) is not type(OPTS_[o]) for o in need) or sup[0][0]: why = "arpeggio's Parser.__init__ %s" % ("is not called exactly once" if len(sup) != 1 else "gets %s; expected every parser option under its own name" % (sorted(sup[0][1]) or "no options"))
+                else: okp = True
+        for pr in ("C01", "C22"): ob(pr, "C01.d", M, "TextXModelParser.__init__", "the parser's grammar is [first rule, EOF] (root), the Comment rule is kept, the options reach arpeggio's Parser (%s)" % optwhat, okp)
+        if not okp:
+            for pr in ("C01", "C22"): out.append(Finding(pr, "C01.d", M, "TextXModelParser.__init__", "self.parser_model / comments_model / Parser.__init__ (%s)" % optwhat, "%s; documented: the model parser matches the first rule of the grammar followed by the end of input, skips what the Comment rule matches, and runs with the meta-model's parser options" % why))
     # C01.a / C01.b (what the repetition and assignment visitors build) are decided by evaluation: sa/rules/c01e.py
     # C01.c: rule modifiers only on expressions that honour them (truth table on the setattr path)
     inst += 1
